@@ -192,6 +192,107 @@ def zero_rules_probe(repo):
         return 'did not return within 4 s'
 
 
+# ------------------------------------ fast_SIS as an instance of the reference ----
+def fsis_tables(case, impl, draws):
+    """Replays the implementation's OWN calls to expovariate (fast_SIS under a scripted source) and
+    collects the rule tables those draws define: dur(v,k) = the k-th duration drawn for v; delays(u,v,k) =
+    every attempt time of the pair (u,v) drawn during u's k-th infectious period that falls BEFORE u's
+    recovery, relative to the start of that period (the attempt discarded because it falls inside v's
+    infectious period is listed too: the reference semantics ignores it for the same reason).
+    Returns a fast_nonMarkov_SIS-style case, or None when the trace is not the clock construction
+    (that is oracle_clock's business, harness/esis_lib.py)."""
+    import heapq
+    gc = case['gc']; G = gc.G; im = gc.idmap; inv = gc.order; n = len(inv)
+    tau, gamma, tmin, tmax = case['tau'], case['gamma'], case['tmin'], case['tmax']
+    log = impl['log']
+    if case['i0'] is None or tmax is None: return None
+    i0 = [im[u] for u in case['i0']]
+    nw = (lambda i: F(G.nodes[inv[i]][gc.nwl])) if gc.nwl else (lambda i: F(1))
+    ew = (lambda i, j: F(G.adj[inv[i]][inv[j]][gc.ewl])) if gc.ewl else (lambda i, j: F(1))
+    nbrs = {im[u]: [im[v] for v in G.neighbors(u)] for u in inv}
+    INF = math.inf
+    st = [0] * n; rec = [tmin - 1] * n; inft = [None] * n; ordn = [0] * n
+    durs = {i: [] for i in range(n)}; atts = {}
+    agenda = []; seq = [0]; pos = [0]
+    class Stop(Exception): pass
+    def draw(rate):
+        if pos[0] >= len(log) or pos[0] >= len(draws): raise Stop()
+        e = log[pos[0]]
+        if e[0] != 'E' or not C.close(e[1], float(rate)): raise Stop()
+        d = F(draws[pos[0]]); pos[0] += 1
+        return d
+    def note(u, v, t):
+        if t < rec[u]: atts.setdefault((u, ordn[u] - 1, v), []).append(t - inft[u])
+    def clock(u, v, now):
+        if not rec[v] < rec[u]: return
+        rate = tau * ew(u, v)
+        if rate <= 0: return
+        t = now + draw(rate)
+        if t < rec[v]:
+            note(u, v, t)
+            t = rec[v] + draw(rate)
+        note(u, v, t)
+        if t < rec[u] and t < tmax:
+            heapq.heappush(agenda, (t, seq[0], ('A', u, v))); seq[0] += 1
+    def infect(t, v):
+        st[v] = 1; inft[v] = t; ordn[v] += 1
+        rr = gamma * nw(v)
+        if rr > 0:
+            d = draw(rr); rec[v] = t + d; durs[v].append(d)
+        else:
+            rec[v] = INF; durs[v].append(tmax - t + 1)
+        if rec[v] < tmax:
+            heapq.heappush(agenda, (rec[v], seq[0], ('R', v))); seq[0] += 1
+        for w in nbrs[v]: clock(v, w, t)
+    try:
+        for v in i0:
+            heapq.heappush(agenda, (tmin, seq[0], ('A', None, v))); seq[0] += 1
+        while agenda:
+            t, _, what = heapq.heappop(agenda)
+            if what[0] == 'R':
+                st[what[1]] = 0
+            else:
+                _, u, v = what
+                if st[v] == 0: infect(t, v)
+                if u is not None: clock(u, v, t)
+    except Stop:
+        return None
+    if pos[0] != len(log): return None
+    c = {'kind': 'fast_nonMarkov_SIS', 'gc': gc, 'full': case['full'], 'tmin': tmin, 'tmax': tmax, 'rho': None,
+         'i0': case['i0'], 'i0_form': case['i0_form'], 'api': 'separate'}
+    c['durs'] = {inv[i]: durs[i] + [F(1)] * 3 for i in range(n)}
+    c['dels'] = {(inv[u], inv[v]): [sorted(atts.get((u, k, v), [])) for k in range(ordn[u])] + [[], [], []] for u in range(n) for v in nbrs[u]}
+    return c
+
+
+def fsis_part(run, tier, EoN, sim, per):
+    """goal: fast_SIS's run on a draw script = the reference semantics of C13 on the tables the same draws define"""
+    rng = run.rng
+    n = 500 if tier == 'quick' else 6000
+    per.update({'fsis_cases': 0, 'fsis_judged': 0, 'fsis_with_dead_attempts': 0, 'fsis_events': 0})
+    for i in range(n):
+        case = L.gen_case(rng, 'fast_SIS', nmax=6)
+        if case['i0'] is None or case['rho'] is not None or not case['i0'] or len(set(case['i0'])) != len(case['i0']): continue
+        used = set(); draws = []
+        while len(draws) < 400:
+            x = F(rng.randint(1, 1 << 13) | 1, 1 << 12)
+            if x not in used:
+                used.add(x); draws.append(x)
+        impl = L.run_impl(EoN, sim, case, draws)
+        if impl['status'] != 'OK': continue
+        per['fsis_cases'] += 1
+        c2 = fsis_tables(case, impl, draws)
+        if c2 is None: continue
+        ref = L.ref_sis(c2, [case['gc'].idmap[u] for u in case['i0']])
+        if ref['ties'] or ref['unfinished']: continue
+        per['fsis_judged'] += 1; per['fsis_events'] += len(ref['events'])
+        if ref['n'] > len(ref['events']) - len(case['i0']): per['fsis_with_dead_attempts'] += 1
+        for kind, what in L.oracle_ref(c2, impl):
+            run.violation('C13/fast_SIS/instance-of-reference/%s' % kind,
+                          'fast_SIS under a draw script is not the reference agenda semantics of C13 on the duration/delay tables that the same draws define: ' + what,
+                          dict(L.case_json(case, draws[:impl['used']]), entry='fast_SIS', tables=L.case_json(c2), what=what))
+
+
 # ------------------------------------------------------------------ the part ----
 def judge(run, case, impl, limit, label, per, K):
     key = 'C13/%s/%s' % (ENTRY, label)
@@ -276,6 +377,7 @@ def part(run, tier, props=None, per=None):
                     run.violation('C13/proof/C13x-terminates', 'the Coq model / reference run did not end within the proven fuel on a case inside the domain', rj, no_input=True)
                 elif v['rows'] != len(impl['rows']) and not case['full']:
                     run.violation('C13/%s/rows-count' % ENTRY, 'the model run at fuel nm_fuel returns %d rows, the implementation %d' % (v['rows'], len(impl['rows'])), rj)
+    fsis_part(run, tier, EoN, sim, per)
     per['zero_durations_zero_delays_call'] = zero_rules_probe(C.REPO)
     return per
 
